@@ -47,7 +47,8 @@ Templates == RowTemplatesOk \cup LetTemplates \cup DeclTemplates \cup OpTemplate
 
 GlobalFillers == {"2", "-1", "1.5", "0", "7", "true", "\"s\"", "S1", "B1", "A1", "[1, 2]", "E0", "M2", "M2[0]", "G", "x", "p", "zz", "len(A1)", "A1[0]", "nodes(G)", "edges(G)",
                   \* block functions and aggregations over constants, mixed (Any) arrays and their elements, set functions
-                  "max { 1, 2 }", "abs { 3 }", "avg { 1, 2 }", "sum(j in 0..2) { j }", "H1", "H1[0]", "H1[1]", "union(E0, [\"a\"])", "union(A1, [4])", "zip(A1, A1)", "enumerate(A1)"}
+                  "max { 1, 2 }", "abs { 3 }", "avg { 1, 2 }", "sum(j in 0..2) { j }", "H1", "H1[0]", "H1[1]", "union(E0, [\"a\"])", "union(A1, [4])", "zip(A1, A1)", "enumerate(A1)",
+                  "union(A1, [\"a\"])", "intersection(A1, [\"a\"])", "difference([\"a\"], A1)", "union([true], A1)", "difference(A1, 1)"}
 RowFillers == GlobalFillers \cup {"u", "e", "t", "i"}
 FillersFor(t) == IF t.where = "row" THEN RowFillers ELSE GlobalFillers
 
